@@ -174,6 +174,31 @@ func PackCases(seed int64, nEnum int, tmpls []Tmpl) []*Case {
 			entries = append(entries, name)
 			wfOf[name] = true
 		}
+		// an action around a single expression whose VALUE is a byte string narrower than the match: the text the outer
+		// block sees is the input of its own match, not the value passed up
+		retArg := func(e *Node, l string) *Node {
+			n := p.n(KAct, e)
+			n.Cid = p.block(KAct, "always")
+			p.blocks[n.Cid].RetKind, p.blocks[n.Cid].RetArg, p.blocks[n.Cid].RetItems = "arg", l, nil
+			return n
+		}
+		narrow := func() *Node { return retArg(p.n(KSeq, p.n(KOpt, la()), lab("x", lb()), p.n(KOpt, la())), "x") }
+		rules = append(rules, &Rule{Name: "Narrow", Expr: narrow()})
+		nref := func() *Node { r := p.n(KRef); r.Ref = "Narrow"; return r }
+		for ti2, e := range []*Node{
+			act(nref()),
+			act(lab("y", nref())),
+			act(narrow()),
+			act(p.n(KOpt, nref())),
+			act(p.n(KAlt, nref(), la())),
+			act(act(nref())),
+			retArg(lab("y", nref()), "y"),
+		} {
+			name := fmt.Sprintf("T%d", ti2)
+			rules = append(rules, &Rule{Name: name, Expr: e})
+			entries = append(entries, name)
+			wfOf[name] = true
+		}
 		exprs := EnumExprs(3)
 		stride := 1
 		if nEnum > 0 && nEnum < len(exprs) {
@@ -191,7 +216,7 @@ func PackCases(seed int64, nEnum int, tmpls []Tmpl) []*Case {
 		}
 		ComputeParams(rules, p.blocks)
 		for _, b := range p.blocks {
-			if b.Kind == KAct {
+			if b.Kind == KAct && b.RetKind == "tuple" {
 				for _, l := range b.Params {
 					b.RetItems = append(b.RetItems, RItem{Kind: "arg", S: l})
 				}
@@ -210,8 +235,13 @@ func PackCases(seed int64, nEnum int, tmpls []Tmpl) []*Case {
 				hi = len(entries)
 			}
 			part := entries[ch*packChunk : hi]
-			prules := []*Rule{rules[0], rules[1], rules[2]}
+			prules := []*Rule{rules[0], rules[1], rules[2], byName["Narrow"]}
 			pblocks := map[int]*Block{}
+			walkNodes(byName["Narrow"].Expr, func(n *Node) {
+				if b, ok := p.blocks[n.Cid]; ok && n.K == KAct {
+					pblocks[n.Cid] = b
+				}
+			})
 			for _, en := range part {
 				prules = append(prules, byName[en])
 				walkNodes(byName[en].Expr, func(n *Node) {
